@@ -537,8 +537,14 @@ def oracle(t, res):
         if got != exp:
             fails.append(('wrong-value', 'SQLite evaluates the rendered expression per row to %s, the tree means %s; SQL: %s'
                           % (got, exp, res['texts'].get('sqlite'))))
+    exp = ''.join(show3(v) for _, v in want)
+    done = {}
     for d in DIALECTS:
         txt = res['texts'][d]
+        if txt in done:
+            # same text as an earlier dialect: same findings, reported once
+            continue
+        done[txt] = d
         if txt.startswith('error:'):
             fails.append(('render-error', 'sqlrepr(expr, %r) raised %s' % (d, txt[6:])))
             continue
@@ -556,7 +562,6 @@ def oracle(t, res):
             continue
         except Overflow:
             continue
-        exp = ''.join(show3(v) for _, v in want)
         if got != exp:
             fails.append(('captured', 'dialect %s: read with SQL precedences the text %s means %s per row, the tree means %s'
                           % (d, txt, got, exp)))
@@ -745,7 +750,7 @@ def gen_cases(ctx):
         cases.append(('cmp', rng.choice(CMP), n, rng.choice(leaves_num())))
         cases.append(('cmp', rng.choice(CMP), rng.choice(leaves_num()), n))
     cases += shapes_depth2(rng, 8 if deep else 3)
-    nrand = ctx.budget(6000, 120000)
+    nrand = ctx.budget(5000, 120000)
     for _ in range(nrand):
         cases.append(rnd_bool(rng, rng.choice([2, 3, 3, 4, 4, 5, 6])))
     return cases, n_corpus
@@ -1070,7 +1075,7 @@ def gen_cases(ctx):
         cases.append(('cmp', rng.choice(CMP), n, rng.choice(leaves_num())))
         cases.append(('cmp', rng.choice(CMP), rng.choice(leaves_num()), n))
     cases += shapes_depth2(rng, 8 if deep else 3)
-    nrand = ctx.budget(6000, 120000)
+    nrand = ctx.budget(5000, 120000)
     for _ in range(nrand):
         cases.append(rnd_bool(rng, rng.choice([2, 3, 3, 4, 4, 5, 6])))
     return cases, n_corpus
@@ -1146,10 +1151,13 @@ def run(ctx):
                 ctx.compare('driver answer well-formed', {'tree': s}, outs[idx + 1], '<4 fields>')
                 continue
             mtexts = ans[0].split(' ; ')
+            tcache = {}
             for d_, mt in zip(DIALECTS, mtexts):
                 txt = res['texts'].get(d_, 'error:build')
-                toks, prob = tokenise(txt) if not txt.startswith('error:') else (None, txt)
-                impl = ' '.join(toks) if toks is not None else 'unlexable(%s): %s' % (prob, txt)
+                if txt not in tcache:
+                    toks, prob = tokenise(txt) if not txt.startswith('error:') else (None, txt)
+                    tcache[txt] = ' '.join(toks) if toks is not None else 'unlexable(%s): %s' % (prob, txt)
+                impl = tcache[txt]
                 ctx.compare('tokens (%s): model render = sqlrepr' % d_, {'tree': s, 'dialect': d_}, mt, impl)
             if isinstance(res['vals'], list):
                 impl_vals = ''.join(show3(None if v is None else (v != 0)) for _, v in res['vals'])
